@@ -2,26 +2,28 @@
 M6b — the item pool of the foreach step (`internal/step/foreach/provider.go`, `executeSubWorkflows` + the output
 assembly of `processInput`), as a transition system over every interleaving of the item goroutines.
 
-Go code modelled (HEAD of /repo):
+Go code modelled (HEAD of /repo, after fix 26900e2):
 
     itemOutputs := make([]any, len(input.data))            -- `outputs`  (nil = none)
     itemErrors  := make(map[int]string, len(input.data))   -- `errors`   (partial map index -> message; absent = none)
     sem := make(chan struct{}, input.parallelism)          -- `sem` = len(sem), capacity `p`
     for i, input := range input.data { go func() {
-        defer func() { select { case <-sem: case <-r.ctx.Done(): }; wg.Done() }()
-        select { case sem <- struct{}{}:                     -- Tr.acquire i        (needs len(sem) < p)
-                 case <-r.ctx.Done(): return }               -- Tr.abort i steal    (needs ctx done; the deferred select
-                                                                                      may then receive from sem: steal)
+        slotAcquired := false
+        defer func() { if slotAcquired { <-sem }; wg.Done() }()
+        select { case sem <- struct{}{}: slotAcquired = true  -- Tr.acquire i   (needs len(sem) < p)
+                 case <-r.ctx.Done():                          -- Tr.abort i     (needs ctx done): under the lock
+                     itemErrors[i] = "aborted before execution because the step was closed"; return }
         outputID, outputData, err := r.workflow.Execute(r.ctx, input)     -- P.exec i xs[i]
         r.lock.Lock(); switch { err != nil: itemErrors[i] = ..; outputID != "success": itemErrors[i] = ..;
                                 default: itemOutputs[i] = outputData }; r.lock.Unlock()
-    }() }                                                    -- Tr.finish i release (store + deferred select)
+    }() }                                                    -- Tr.finish i  (store + `<-sem`, needs len(sem) > 0)
     wg.Wait()
 
 `Tr.cancel` is `r.cancel()` (called by `Close`).  A schedule is any list of transitions; `runSched` rejects a schedule
-containing a transition that is not enabled (a goroutine blocked in a select cannot move).  The stores happen under the
-step lock, hence atomically; store and slot release of one item are merged into one transition (nothing of the shared
-state is read in between by that goroutine).
+containing a transition that is not enabled (a goroutine blocked in a select / receive cannot move).  Go picks among the
+ready arms of a select at random, so `acquire` stays possible after `cancel`.  The stores happen under the step lock, hence
+atomically; store and slot release of one item are merged into one transition (nothing of the shared state is read in
+between by that goroutine).  An aborted item never touches the semaphore.
 
 Assumption (trusted): a sub-workflow `success` output is never Go `nil` (it is the object the output schema builds), so
 "entry != nil" in `processInput` is exactly "the item stored an output".
@@ -40,6 +42,9 @@ namespace ItemOutcome
 variable {β : Type}
 
 def otherMsg (id : String) : String := "subworkflow finished with output '" ++ id ++ "' instead of 'success'"
+
+/-- the message recorded for an item that left through the `ctx.Done()` arm -/
+def abortMsg : String := "aborted before execution because the step was closed"
 
 /-- value stored into `itemOutputs[i]` (none = the slot stays nil) -/
 def okVal : ItemOutcome β → Option β
@@ -62,7 +67,7 @@ inductive Phase where
   | pending    -- goroutine created, waiting in the first select
   | running    -- slot taken, inside Execute
   | done       -- result stored, goroutine finished
-  | aborted    -- left through the ctx.Done() arm without ever taking a slot
+  | aborted    -- left through the ctx.Done() arm without ever taking a slot (recorded as an error)
   deriving Repr, DecidableEq
 
 /-- the static part: the items, the parallelism and what executing the sub-workflow on item `i` yields -/
@@ -81,9 +86,9 @@ structure PoolState (α β : Type) where
 
 inductive Tr where
   | acquire (i : Nat)
-  | finish (i : Nat) (release : Bool)   -- release = the deferred select received from sem
+  | finish (i : Nat)
   | cancel
-  | abort (i : Nat) (steal : Bool)      -- steal = the deferred select of an item that never took a slot received from sem
+  | abort (i : Nat)
   deriving Repr, DecidableEq
 
 variable {α β : Type}
@@ -107,17 +112,18 @@ def store (s : PoolState α β) (i : Nat) : ItemOutcome β → PoolState α β
 def acquireOk (P : Pool α β) (s : PoolState α β) (i : Nat) : Prop :=
   s.phase[i]? = some .pending ∧ s.sem < P.p
 
-def finishOk (s : PoolState α β) (i : Nat) (release : Bool) : Prop :=
-  s.phase[i]? = some .running ∧ (if release then 0 < s.sem else s.cancelled = true)
+/-- the deferred `<-sem` of an item that holds a slot needs a token in the channel -/
+def finishOk (s : PoolState α β) (i : Nat) : Prop :=
+  s.phase[i]? = some .running ∧ 0 < s.sem
 
-def abortOk (s : PoolState α β) (i : Nat) (steal : Bool) : Prop :=
-  s.phase[i]? = some .pending ∧ s.cancelled = true ∧ (steal = true → 0 < s.sem)
+def abortOk (s : PoolState α β) (i : Nat) : Prop :=
+  s.phase[i]? = some .pending ∧ s.cancelled = true
 
 instance (P : Pool α β) (s : PoolState α β) (i : Nat) : Decidable (acquireOk P s i) := by
   unfold acquireOk; exact inferInstance
-instance (s : PoolState α β) (i : Nat) (r : Bool) : Decidable (finishOk s i r) := by
-  unfold finishOk; cases r <;> exact inferInstance
-instance (s : PoolState α β) (i : Nat) (r : Bool) : Decidable (abortOk s i r) := by
+instance (s : PoolState α β) (i : Nat) : Decidable (finishOk s i) := by
+  unfold finishOk; exact inferInstance
+instance (s : PoolState α β) (i : Nat) : Decidable (abortOk s i) := by
   unfold abortOk; exact inferInstance
 
 /-- one transition; `none` = not enabled in this state -/
@@ -129,18 +135,18 @@ def step (P : Pool α β) (s : PoolState α β) : Tr → Option (PoolState α β
       if acquireOk P s i then
         some { s with phase := s.phase.set i .running, sem := s.sem + 1, started := s.started ++ [(i, a)] }
       else none
-  | .finish i release =>
+  | .finish i =>
     match P.xs[i]? with
     | none => none
     | some a =>
-      if finishOk s i release then
+      if finishOk s i then
         let s1 := store s i (P.exec i a)
-        some { s1 with phase := s1.phase.set i .done, sem := if release then s1.sem - 1 else s1.sem }
+        some { s1 with phase := s1.phase.set i .done, sem := s1.sem - 1 }
       else none
   | .cancel => if s.cancelled then none else some { s with cancelled := true }
-  | .abort i steal =>
-    if abortOk s i steal then
-      some { s with phase := s.phase.set i .aborted, sem := if steal then s.sem - 1 else s.sem }
+  | .abort i =>
+    if abortOk s i then
+      some { s with phase := s.phase.set i .aborted, errors := s.errors.set i (some ItemOutcome.abortMsg) }
     else none
 
 def runSched (P : Pool α β) (s : PoolState α β) : List Tr → Option (PoolState α β)
@@ -206,12 +212,19 @@ def assemble (s : PoolState α β) : StepOutput β := assembleOf s.outputs s.err
 
 def Pool.outcomes (P : Pool α β) : List (ItemOutcome β) := P.xs.mapIdx (fun i a => P.exec i a)
 
-/-- the step output the property prescribes -/
-def expected (P : Pool α β) : StepOutput β :=
-  if P.outcomes.all ItemOutcome.isOk then
-    .success (P.outcomes.map ItemOutcome.okVal)
+/-- the step output the property prescribes for a list of per-item outcomes -/
+def expectedOf (l : List (ItemOutcome β)) : StepOutput β :=
+  if l.all ItemOutcome.isOk then
+    .success (l.map ItemOutcome.okVal)
   else
-    .failure (indexed (P.outcomes.map ItemOutcome.okVal)) (indexed (P.outcomes.map ItemOutcome.failMsg))
+    .failure (indexed (l.map ItemOutcome.okVal)) (indexed (l.map ItemOutcome.failMsg))
+
+/-- the step output of a pool that is not closed: every item is executed -/
+def expected (P : Pool α β) : StepOutput β := expectedOf P.outcomes
+
+/-- the per-item outcomes of a (possibly closed) pool: an item that was aborted counts as failed with `abortMsg` -/
+def effOutcomes (P : Pool α β) (s : PoolState α β) : List (ItemOutcome β) :=
+  P.xs.mapIdx (fun i a => if s.phase[i]? = some .aborted then .err ItemOutcome.abortMsg else P.exec i a)
 
 /-- termination measure: every transition strictly decreases it -/
 def measure (s : PoolState α β) : Nat :=
@@ -220,6 +233,6 @@ def measure (s : PoolState α β) : Nat :=
 /-- the canonical schedule: one item after the other (parallelism 1 behaviour) -/
 def seqSched : Nat → List Tr
   | 0 => []
-  | n + 1 => seqSched n ++ [.acquire n, .finish n true]
+  | n + 1 => seqSched n ++ [.acquire n, .finish n]
 
 end Arca.Model.ForeachPool
